@@ -355,7 +355,8 @@ package avltree
 //@ func rotate
 //@   requires Dir(c) && s != nil && s.Children[Side(c)] != nil
 //@   requires s.Children[Side(c)] != s && s.Children[Side(c)].Children[1 - Side(c)] != s && s.Children[Side(c)].Children[1 - Side(c)] != s.Children[Side(c)]
-//@   modifies each x like s where x == s || x == old(s.Children[Side(c)]) || x == old(s.Children[Side(c)].Children[1 - Side(c)]) : x.Children, x.Parent
+//@   modifies each x like s where x == s || x == old(s.Children[Side(c)]) : x.Children, x.Parent
+//@   modifies each x like s where x == old(s.Children[Side(c)].Children[1 - Side(c)]) : x.Parent
 //@   ensures [C07 C17] result == old(s.Children[Side(c)]) && result.Children[1 - Side(c)] == s && result.Children[Side(c)] == old(s.Children[Side(c)].Children[Side(c)])
 //@   ensures [C07] s.Children[Side(c)] == old(s.Children[Side(c)].Children[1 - Side(c)]) && s.Children[1 - Side(c)] == old(s.Children[1 - Side(c)])
 //@   ensures [C07] result.Parent == old(s.Parent) && s.Parent == result && (s.Children[Side(c)] != nil ==> s.Children[Side(c)].Parent == s)
@@ -374,7 +375,8 @@ package avltree
 //@ func singlerot
 //@   requires Dir(c) && s != nil && s.Children[Side(c)] != nil && RotDistinct(c, s)
 //@   requires Hc(s.Children[1 - Side(c)]) == Hc(s.Children[Side(c)].Children[1 - Side(c)]) && Hc(s.Children[Side(c)].Children[Side(c)]) == Hc(s.Children[Side(c)].Children[1 - Side(c)]) + 1
-//@   modifies each x like s where x == s || x == old(s.Children[Side(c)]) || x == old(s.Children[Side(c)].Children[1 - Side(c)]) : x.Children, x.Parent, x.b, x.h
+//@   modifies each x like s where x == s || x == old(s.Children[Side(c)]) : x.Children, x.Parent, x.b, x.h
+//@   modifies each x like s where x == old(s.Children[Side(c)].Children[1 - Side(c)]) : x.Parent
 //@   at exit: s0.h := 1 + max(Hc(s0.Children[0]), Hc(s0.Children[1]))
 //@   at exit: result.h := 1 + max(Hc(result.Children[0]), Hc(result.Children[1]))
 //@   ensures [C07 C17] result == old(s.Children[Side(c)]) && result.Children[1 - Side(c)] == s && result.Children[Side(c)] == old(s.Children[Side(c)].Children[Side(c)])
@@ -394,7 +396,8 @@ package avltree
 //@   requires Dir(c) && s != nil && s.Children[Side(c)] != nil && s.Children[Side(c)].Children[1 - Side(c)] != nil && DblDistinct(c, s)
 //@   requires Bal(s.Children[Side(c)].Children[1 - Side(c)])
 //@   requires Hc(s.Children[1 - Side(c)]) == Hc(s.Children[Side(c)].Children[Side(c)]) && Hc(s.Children[Side(c)].Children[1 - Side(c)]) == Hc(s.Children[1 - Side(c)]) + 1
-//@   modifies each x like s where x == s || x == old(s.Children[Side(c)]) || x == old(s.Children[Side(c)].Children[1 - Side(c)]) || x == old(s.Children[Side(c)].Children[1 - Side(c)].Children[0]) || x == old(s.Children[Side(c)].Children[1 - Side(c)].Children[1]) : x.Children, x.Parent, x.b, x.h
+//@   modifies each x like s where x == s || x == old(s.Children[Side(c)]) || x == old(s.Children[Side(c)].Children[1 - Side(c)]) : x.Children, x.Parent, x.b, x.h
+//@   modifies each x like s where x == old(s.Children[Side(c)].Children[1 - Side(c)].Children[0]) || x == old(s.Children[Side(c)].Children[1 - Side(c)].Children[1]) : x.Parent
 //@   at exit: s.h := 1 + max(Hc(s.Children[0]), Hc(s.Children[1]))
 //@   at exit: r.h := 1 + max(Hc(r.Children[0]), Hc(r.Children[1]))
 //@   at exit: result.h := 1 + max(Hc(result.Children[0]), Hc(result.Children[1]))
@@ -410,17 +413,44 @@ package avltree
 //@ -- subtree in the slot is one higher than before the insertion.
 //@ pred GrewStale(c, s) := 0 - 1 <= s.b && s.b <= 1 && s.h == 1 + max(Hc(s.Children[Side(c)]) - 1, Hc(s.Children[1 - Side(c)]))
 //@     && s.b == ite(c == 1, (Hc(s.Children[1]) - 1) - Hc(s.Children[0]), Hc(s.Children[1]) - (Hc(s.Children[0]) - 1))
+//@ -- tree level: the slot t is the place where its content hangs in the tree T, and T has the tree shape
+//@ pred SlotOK(t, T) := deref(t).tr == T && (slot_isroot(t) ==> slot_tree(t) == T && deref(t).Parent == nil)
+//@     && (!slot_isroot(t) ==> slot_node(t) == deref(t).Parent && slot_node(t) != nil && slot_node(t).tr == T)
+//@ -- what a rebalancing step leaves alone
+//@ pred SameSeq(T) := T.size == old(T.size) && T.nodes == old(T.nodes) && T.rank == old(T.rank) && T.Comparator == old(T.Comparator)
+//@     && (forall x like T.Root :: x.tr == old(x.tr) && x.pos == old(x.pos) && x.Key == old(x.Key) && x.Value == old(x.Value))
 //@ func putFix
 //@   requires Dir(c) && deref(t) != nil && deref(t).Children[Side(c)] != nil && GrewStale(c, deref(t)) && Bal(deref(t).Children[Side(c)])
-//@   requires deref(t).b == c ==> deref(t).Children[Side(c)].b != 0 && DblDistinct0(c, deref(t))
-//@   requires deref(t).b == c && deref(t).Children[Side(c)].b != c ==> deref(t).Children[Side(c)].Children[1 - Side(c)] != nil && Bal(deref(t).Children[Side(c)].Children[1 - Side(c)]) && DblDistinct(c, deref(t))
+//@   requires deref(t).tr != nil && ShapeInv(deref(t).tr) && SlotOK(t, deref(t).tr)
+//@   requires deref(t).b == c ==> deref(t).Children[Side(c)].b != 0
+//@   requires deref(t).b == c && deref(t).Children[Side(c)].b != c ==> deref(t).Children[Side(c)].Children[1 - Side(c)] != nil && Bal(deref(t).Children[Side(c)].Children[1 - Side(c)])
 //@   modifies deref(t)
-//@   modifies each x like deref(t) where x == old(deref(t)) || x == old(deref(t).Children[Side(c)]) || x == old(deref(t).Children[Side(c)].Children[1 - Side(c)]) || x == old(deref(t).Children[Side(c)].Children[1 - Side(c)].Children[0]) || x == old(deref(t).Children[Side(c)].Children[1 - Side(c)].Children[1]) : x.Children, x.Parent, x.b, x.h
+//@   modifies each x like deref(t) where x == old(deref(t)) || x == old(deref(t).Children[Side(c)]) || x == old(deref(t).Children[Side(c)].Children[1 - Side(c)]) : x.Children, x.Parent, x.b, x.h, x.lo, x.hi
+//@   modifies each x like deref(t) where x == old(deref(t).Children[Side(c)].Children[1 - Side(c)].Children[0]) || x == old(deref(t).Children[Side(c)].Children[1 - Side(c)].Children[1]) : x.Parent
 //@   at exit: if old(deref(t).b) == 0 then old(deref(t)).h := old(deref(t).h) + 1
+//@   -- after a rotation the subtree intervals of the (up to three) restructured nodes are recomputed bottom-up
+//@   at exit: if old(deref(t).b) == c then old(deref(t)).lo := ite(old(deref(t)).Children[0] == nil, old(deref(t)).pos, old(deref(t)).Children[0].lo)
+//@   at exit: if old(deref(t).b) == c then old(deref(t)).hi := ite(old(deref(t)).Children[1] == nil, old(deref(t)).pos, old(deref(t)).Children[1].hi)
+//@   at exit: if old(deref(t).b) == c then old(deref(t).Children[Side(c)]).lo := ite(old(deref(t).Children[Side(c)]).Children[0] == nil, old(deref(t).Children[Side(c)]).pos, old(deref(t).Children[Side(c)]).Children[0].lo)
+//@   at exit: if old(deref(t).b) == c then old(deref(t).Children[Side(c)]).hi := ite(old(deref(t).Children[Side(c)]).Children[1] == nil, old(deref(t).Children[Side(c)]).pos, old(deref(t).Children[Side(c)]).Children[1].hi)
+//@   at exit: if old(deref(t).b) == c then deref(t).lo := ite(deref(t).Children[0] == nil, deref(t).pos, deref(t).Children[0].lo)
+//@   at exit: if old(deref(t).b) == c then deref(t).hi := ite(deref(t).Children[1] == nil, deref(t).pos, deref(t).Children[1].hi)
+//@   assert entry: deref(t).Children[Side(c)].tr == deref(t).tr && deref(t).Children[Side(c)].Parent == deref(t) && (deref(t).Children[1 - Side(c)] != nil ==> deref(t).Children[1 - Side(c)].tr == deref(t).tr)
+//@   assert entry: deref(t).Children[Side(c)].Children[1 - Side(c)] != nil ==> deref(t).Children[Side(c)].Children[1 - Side(c)].tr == deref(t).tr && deref(t).Children[Side(c)].Children[1 - Side(c)].Parent == deref(t).Children[Side(c)]
+//@   assert exit: deref(t).tr == old(deref(t).tr) && (forall x like deref(t) :: x.tr == old(x.tr) && x.pos == old(x.pos))
+//@   assert exit: forall x like deref(t) :: x.tr == old(deref(t).tr) ==> x != nil && x.lo <= x.pos && x.pos <= x.hi && 0 <= x.pos && x.pos < old(deref(t).tr).size && old(deref(t).tr).nodes[x.pos] == x
+//@   assert exit: forall x like deref(t) :: x.tr == old(deref(t).tr) ==> (x.Children[0] == nil ==> x.lo == x.pos)
+//@   assert exit: forall x like deref(t) :: x.tr == old(deref(t).tr) ==> (x.Children[0] != nil ==> x.Children[0].tr == old(deref(t).tr) && x.Children[0].Parent == x && x.Children[0].lo == x.lo && x.Children[0].hi == x.pos - 1)
+//@   assert exit: forall x like deref(t) :: x.tr == old(deref(t).tr) ==> (x.Children[1] == nil ==> x.hi == x.pos)
+//@   assert exit: forall x like deref(t) :: x.tr == old(deref(t).tr) ==> (x.Children[1] != nil ==> x.Children[1].tr == old(deref(t).tr) && x.Children[1].Parent == x && x.Children[1].lo == x.pos + 1 && x.Children[1].hi == x.hi)
+//@   assert exit: forall x like deref(t) :: x.tr == old(deref(t).tr) ==> (x.Parent == nil ==> x == old(deref(t).tr).Root && x.lo == 0 && x.hi == old(deref(t).tr).size - 1)
+//@   assert exit: forall x like deref(t) :: x.tr == old(deref(t).tr) ==> (x.Parent != nil ==> x.Parent.tr == old(deref(t).tr) && (x.Parent.Children[0] == x || x.Parent.Children[1] == x))
 //@   ensures [C07 C17] result == (old(deref(t).b) == 0)
 //@   ensures [C07] deref(t) != nil && Bal(deref(t)) && deref(t).h == old(deref(t).h) + ite(result, 1, 0)
 //@   ensures [C07] old(deref(t).b) != c ==> deref(t) == old(deref(t))
 //@   ensures [C07] old(deref(t).b) == c ==> deref(t).Parent == old(deref(t).Parent) && Bal(old(deref(t))) && Bal(old(deref(t).Children[Side(c)]))
+//@   ensures [C01 C07] shape: ShapeInv(old(deref(t).tr)) && SameSeq(old(deref(t).tr)) && SlotOK(t, old(deref(t).tr))
+//@   ensures [C07] interval: deref(t).lo == old(deref(t).lo) && deref(t).hi == old(deref(t).hi)
 
 //@ -- removeFix(c, t): the subtree in slot t has root s whose child on the side opposite to c has just shrunk by one (so s now
 //@ -- leans relatively towards c); s's balance factor and ghost height still describe the state before. Afterwards the slot
@@ -429,14 +459,36 @@ package avltree
 //@     && s.b == ite(c == 1, Hc(s.Children[1]) - (Hc(s.Children[0]) + 1), (Hc(s.Children[1]) + 1) - Hc(s.Children[0]))
 //@ func removeFix
 //@   requires Dir(c) && deref(t) != nil && ShrankStale(c, deref(t))
-//@   requires deref(t).b == c ==> deref(t).Children[Side(c)] != nil && Bal(deref(t).Children[Side(c)]) && RotDistinct(c, deref(t))
-//@   requires deref(t).b == c && deref(t).Children[Side(c)].b == 0 - c ==> deref(t).Children[Side(c)].Children[1 - Side(c)] != nil && Bal(deref(t).Children[Side(c)].Children[1 - Side(c)]) && DblDistinct(c, deref(t))
+//@   requires deref(t).b == c ==> deref(t).Children[Side(c)] != nil && Bal(deref(t).Children[Side(c)])
+//@   requires deref(t).tr != nil && ShapeInv(deref(t).tr) && SlotOK(t, deref(t).tr)
+//@   requires deref(t).b == c && deref(t).Children[Side(c)].b == 0 - c ==> deref(t).Children[Side(c)].Children[1 - Side(c)] != nil && Bal(deref(t).Children[Side(c)].Children[1 - Side(c)])
 //@   modifies deref(t)
-//@   modifies each x like deref(t) where x == old(deref(t)) || x == old(deref(t).Children[Side(c)]) || x == old(deref(t).Children[Side(c)].Children[1 - Side(c)]) || x == old(deref(t).Children[Side(c)].Children[1 - Side(c)].Children[0]) || x == old(deref(t).Children[Side(c)].Children[1 - Side(c)].Children[1]) : x.Children, x.Parent, x.b, x.h
+//@   modifies each x like deref(t) where x == old(deref(t)) || x == old(deref(t).Children[Side(c)]) || x == old(deref(t).Children[Side(c)].Children[1 - Side(c)]) : x.Children, x.Parent, x.b, x.h, x.lo, x.hi
+//@   modifies each x like deref(t) where x == old(deref(t).Children[Side(c)].Children[1 - Side(c)].Children[0]) || x == old(deref(t).Children[Side(c)].Children[1 - Side(c)].Children[1]) : x.Parent
 //@   at exit: if old(deref(t).b) == 0 - c then old(deref(t)).h := old(deref(t).h) - 1
 //@   at exit: if old(deref(t).b) == c && old(deref(t).Children[Side(c)].b) == 0 then old(deref(t)).h := 1 + max(Hc(old(deref(t)).Children[0]), Hc(old(deref(t)).Children[1]))
 //@   at exit: if old(deref(t).b) == c && old(deref(t).Children[Side(c)].b) == 0 then deref(t).h := 1 + max(Hc(deref(t).Children[0]), Hc(deref(t).Children[1]))
+//@   -- after a rotation the subtree intervals of the (up to three) restructured nodes are recomputed bottom-up
+//@   at exit: if old(deref(t).b) == c then old(deref(t)).lo := ite(old(deref(t)).Children[0] == nil, old(deref(t)).pos, old(deref(t)).Children[0].lo)
+//@   at exit: if old(deref(t).b) == c then old(deref(t)).hi := ite(old(deref(t)).Children[1] == nil, old(deref(t)).pos, old(deref(t)).Children[1].hi)
+//@   at exit: if old(deref(t).b) == c then old(deref(t).Children[Side(c)]).lo := ite(old(deref(t).Children[Side(c)]).Children[0] == nil, old(deref(t).Children[Side(c)]).pos, old(deref(t).Children[Side(c)]).Children[0].lo)
+//@   at exit: if old(deref(t).b) == c then old(deref(t).Children[Side(c)]).hi := ite(old(deref(t).Children[Side(c)]).Children[1] == nil, old(deref(t).Children[Side(c)]).pos, old(deref(t).Children[Side(c)]).Children[1].hi)
+//@   at exit: if old(deref(t).b) == c then deref(t).lo := ite(deref(t).Children[0] == nil, deref(t).pos, deref(t).Children[0].lo)
+//@   at exit: if old(deref(t).b) == c then deref(t).hi := ite(deref(t).Children[1] == nil, deref(t).pos, deref(t).Children[1].hi)
+//@   assert entry: deref(t).b == c ==> (deref(t).Children[Side(c)].tr == deref(t).tr && deref(t).Children[Side(c)].Parent == deref(t) && (deref(t).Children[1 - Side(c)] != nil ==> deref(t).Children[1 - Side(c)].tr == deref(t).tr))
+//@   assert entry: deref(t).b == c ==> (deref(t).Children[Side(c)].Children[1 - Side(c)] != nil ==> deref(t).Children[Side(c)].Children[1 - Side(c)].tr == deref(t).tr && deref(t).Children[Side(c)].Children[1 - Side(c)].Parent == deref(t).Children[Side(c)])
+//@   assert exit: deref(t).tr == old(deref(t).tr) && (forall x like deref(t) :: x.tr == old(x.tr) && x.pos == old(x.pos))
+//@   assert exit: forall x like deref(t) :: x.tr == old(deref(t).tr) ==> x != nil && x.lo <= x.pos && x.pos <= x.hi && 0 <= x.pos && x.pos < old(deref(t).tr).size && old(deref(t).tr).nodes[x.pos] == x
+//@   assert exit: forall x like deref(t) :: x.tr == old(deref(t).tr) ==> (x.Children[0] == nil ==> x.lo == x.pos)
+//@   assert exit: forall x like deref(t) :: x.tr == old(deref(t).tr) ==> (x.Children[0] != nil ==> x.Children[0].tr == old(deref(t).tr) && x.Children[0].Parent == x && x.Children[0].lo == x.lo && x.Children[0].hi == x.pos - 1)
+//@   assert exit: forall x like deref(t) :: x.tr == old(deref(t).tr) ==> (x.Children[1] == nil ==> x.hi == x.pos)
+//@   assert exit: forall x like deref(t) :: x.tr == old(deref(t).tr) ==> (x.Children[1] != nil ==> x.Children[1].tr == old(deref(t).tr) && x.Children[1].Parent == x && x.Children[1].lo == x.pos + 1 && x.Children[1].hi == x.hi)
+//@   assert exit: forall x like deref(t) :: x.tr == old(deref(t).tr) ==> (x.Parent == nil ==> x == old(deref(t).tr).Root && x.lo == 0 && x.hi == old(deref(t).tr).size - 1)
+//@   assert exit: forall x like deref(t) :: x.tr == old(deref(t).tr) ==> (x.Parent != nil ==> x.Parent.tr == old(deref(t).tr) && (x.Parent.Children[0] == x || x.Parent.Children[1] == x))
 //@   ensures [C07 C17] result == (old(deref(t).b) == 0 - c || (old(deref(t).b) == c && old(deref(t).Children[Side(c)].b) != 0))
 //@   ensures [C07] deref(t) != nil && Bal(deref(t)) && deref(t).h == old(deref(t).h) - ite(result, 1, 0)
 //@   ensures [C07] old(deref(t).b) != c ==> deref(t) == old(deref(t))
 //@   ensures [C07] old(deref(t).b) == c ==> deref(t).Parent == old(deref(t).Parent) && Bal(old(deref(t))) && Bal(old(deref(t).Children[Side(c)]))
+
+//@   ensures [C01 C07] shape: ShapeInv(old(deref(t).tr)) && SameSeq(old(deref(t).tr)) && SlotOK(t, old(deref(t).tr))
+//@   ensures [C07] interval: deref(t).lo == old(deref(t).lo) && deref(t).hi == old(deref(t).hi)
